@@ -8,7 +8,7 @@ from __future__ import annotations
 import ast
 from typing import Dict, List, Optional, Set, Tuple
 
-from ..astutil import Origins, call_name, names_in
+from ..astutil import Origins, call_name, const_num, names_in
 from ..cfg import Conditions, ReachingDefs
 from ..loader import FuncInfo, Program, enclosing_stmt, parent, short, walk_own
 from ..report import BAD, INFO, OK, UNDET, Instance
@@ -622,4 +622,96 @@ def polygon_bbox_last(prog: Program) -> List[Instance]:
                             "bounding box is taken from the polygon after re-projection" if ok and not bad_shape else f"`{short(a)}`: the grid is built from a re-projected bounding box instead of the bounding box of the re-projected polygon", f.where(n)))
     if not calls:
         out.append(Instance("R-GUARDSEQ", f"{f.qual}#bbox-of-projected-polygon", UNDET, "from_bbox call not found", f.where()))
+    return out
+
+
+def tiles_geobox_consistency(prog: Program) -> List[Instance]:
+    """C04: GeoboxTiles keeps its base geobox and its ROI tiling in step: a tile's geobox is the base
+    cropped to the tiling's region of the same index, and every derived GeoboxTiles is built from a
+    geobox crop and a tiling crop of the same region."""
+    out: List[Instance] = []
+    ci = prog.cls("geobox:GeoboxTiles")
+    init = ci.find_method("__init__")
+    f_box = _field_of_param(init, [p.arg for p in init.positional_params()][1]) if init else None
+    # the tiling field: assigned from the _tiles keyword parameter
+    f_til = None
+    if init is not None:
+        for n in walk_own(init.node):
+            if isinstance(n, ast.Assign) and isinstance(n.targets[0], ast.Attribute) and isinstance(n.value, ast.Call) and call_name(n.value) == "roi_tiles":
+                f_til = n.targets[0].attr
+    if not (f_box and f_til):
+        return [Instance("R-GUARDSEQ", f"{ci.qual}#fields", UNDET, "base geobox / tiling fields not identified", "")]
+    gi = ci.find_method("__getitem__")
+    idxp = [p.arg for p in gi.positional_params()][1]
+    ok = False
+    for n in walk_own(gi.node):
+        if isinstance(n, ast.Return) and isinstance(n.value, ast.Subscript):
+            v = n.value
+            inner = v.slice
+            ok = isinstance(v.value, ast.Attribute) and v.value.attr == f_box and isinstance(inner, ast.Subscript) and isinstance(inner.value, ast.Attribute) and inner.value.attr == f_til and short(inner.slice) == idxp
+    out.append(Instance("R-GUARDSEQ", f"{gi.qual}#tile-is-base-crop", OK if ok else BAD,
+                        "tile idx = base geobox cropped to the tiling's region of idx" if ok else "tile lookup is not base[tiling[idx]] for the same index", gi.where()))
+    cs = ci.find_method("chunk_shape")
+    if cs is not None:
+        ok = any(isinstance(n, ast.Call) and call_name(n) == "tile_shape" and isinstance(n.func, ast.Attribute) and isinstance(n.func.value, ast.Attribute) and n.func.value.attr == f_til and [short(a) for a in n.args] == [p.arg for p in cs.positional_params()][1:2] for n in walk_own(cs.node))
+        out.append(Instance("R-GUARDSEQ", f"{cs.qual}#delegates", OK if ok else BAD, "chunk shape comes from the tiling for the same index" if ok else "chunk_shape does not ask the tiling for the same index", cs.where()))
+    # derived GeoboxTiles: geobox crop and tiling crop use the same region
+    for mname in ("_crop", "clip"):
+        m = ci.find_method(mname)
+        if m is None:
+            continue
+        org = Origins(m)
+        for n in walk_own(m.node):
+            if isinstance(n, ast.Call) and call_name(n) == ci.name and n.args:
+                g_expr = n.args[0]
+                t_expr = next((k.value for k in n.keywords if k.arg == "_tiles"), None)
+                if t_expr is None:
+                    out.append(Instance("R-GUARDSEQ", f"{m.qual}#same-region", BAD, "derived GeoboxTiles re-tiles the cropped geobox instead of cropping the tiling", m.where(n)))
+                    continue
+                g_deps, t_deps = org.deps_names(g_expr), org.deps_names(t_expr)
+                # both must depend on one common region variable / one common producing call
+                params = set(m.param_names()) - {m.self_name}
+                common = (g_deps & t_deps) - {m.self_name}
+                # region flows from the same parameter (for _crop) or from the same clip_tiles call (for clip)
+                producers = set()
+                for nm in common:
+                    for _, v in org.defs.get(nm, []):
+                        for x in ast.walk(v):
+                            if isinstance(x, ast.Call):
+                                producers.add(call_name(x))
+                ok = bool(common & params) and (mname != "clip" or "clip_tiles" in (producers | common))
+                out.append(Instance("R-GUARDSEQ", f"{m.qual}#same-region", OK if ok else BAD,
+                                    "cropped geobox and cropped tiling derive from the same region" if ok else "cropped geobox and cropped tiling are not derived from the same region/selection", m.where(n)))
+    return out
+
+
+def locate_siblings(prog: Program) -> List[Instance]:
+    """C04: Tiles.locate and VariableSizedTiles.locate reject the same out-of-range pixels (sibling
+    implementations of RoiTiles.locate): same comparisons of the pixel with 0 and the base extent."""
+    out: List[Instance] = []
+
+    def guard(f: FuncInfo):
+        from .axis import Beliefs
+        b = Beliefs(f)
+        tests = set()
+        raises = False
+        for n in walk_own(f.node):
+            if isinstance(n, ast.If) and any(isinstance(x, ast.Raise) for x in n.body):
+                raises = any("IndexError" in short(x.exc) for x in n.body if isinstance(x, ast.Raise))
+                for c in ast.walk(n.test):
+                    if isinstance(c, ast.Compare) and len(c.ops) == 1 and isinstance(c.left, ast.Name):
+                        r = c.comparators[0]
+                        rhs = "0" if const_num(r) == 0 else ("extent" if isinstance(r, ast.Name) else "?")
+                        ax = b.of(c.left.id) or "?"
+                        ax2 = b.of(r.id) if isinstance(r, ast.Name) else ax
+                        tests.add((ax, type(c.ops[0]).__name__, rhs, ax2))
+        return tests, raises
+
+    a, b2 = prog.func("roi:Tiles.locate"), prog.func("roi:VariableSizedTiles.locate")
+    ta, ra = guard(a)
+    tb, rb = guard(b2)
+    want = {("Y", "Lt", "0", "Y"), ("Y", "GtE", "extent", "Y"), ("X", "Lt", "0", "X"), ("X", "GtE", "extent", "X")}
+    ok = ta == tb == want and ra and rb
+    out.append(Instance("R-SIBLING", "roi:Tiles.locate~VariableSizedTiles.locate#range-guard", OK if ok else BAD,
+                        "both reject pixels with coordinate < 0 or >= extent of the same axis with IndexError" if ok else f"range guards differ or are incomplete: {sorted(ta)} vs {sorted(tb)}", a.where()))
     return out
